@@ -41,17 +41,43 @@ Proof.
   lia.
 Qed.
 
-(* a number strictly within half a unit of the last digit of a decimal d prints as d *)
-Lemma fmt_fixQ_near N z y :
-  Qabs (y - inject_Z z / inject_Z (p10 N)) < (1 # 2) / inject_Z (p10 N) ->
+(* at a tie: the even neighbour *)
+Lemma rneQ_near_even q n : Qabs (q - inject_Z n) <= 1 # 2 -> Z.even n = true -> rneQ q = n.
+Proof.
+  intros H Hev. apply Qabs_Qle_condition in H. destruct H as [H1 H2].
+  pose proof (rneQ_err q) as [E1 E2]. set (r := rneQ q) in *.
+  assert (L : (n <= r + 1)%Z).
+  { rewrite Zle_Qle. rewrite inject_Z_plus. change (inject_Z 1) with 1. lra. }
+  assert (U : (r <= n + 1)%Z).
+  { rewrite Zle_Qle. rewrite inject_Z_plus. change (inject_Z 1) with 1. lra. }
+  destruct (Z.eq_dec r n) as [E|E]; [exact E|]. exfalso.
+  assert (Hcase : r = (n + 1)%Z \/ r = (n - 1)%Z) by lia.
+  assert (Hodd : Z.even r = false).
+  { destruct Hcase as [-> | ->].
+    - rewrite Z.even_add, Hev. reflexivity.
+    - rewrite Z.even_sub, Hev. reflexivity. }
+  assert (Htie : Qabs (inject_Z r - q) == 1 # 2).
+  { destruct Hcase as [Er | Er].
+    - assert (Ei : inject_Z r == inject_Z n + 1)
+        by (rewrite Er, inject_Z_plus; reflexivity).
+      assert (Eq : inject_Z r - q == 1 # 2) by lra. rewrite Eq. reflexivity.
+    - assert (Ei : inject_Z r == inject_Z n - 1)
+        by (rewrite Er; unfold Z.sub; rewrite inject_Z_plus; reflexivity).
+      assert (Eq : inject_Z r - q == - (1 # 2)) by lra. rewrite Eq. reflexivity. }
+  pose proof (rneQ_half_even q Htie) as Hev'. fold r in Hev'. congruence.
+Qed.
+
+(* a number within half a unit of the last digit of a decimal d = z / 10^N whose digits round to
+   those of d prints as d *)
+Lemma fmt_fixQ_close N z y :
+  Qabs (y - inject_Z z / inject_Z (p10 N)) <= (1 # 2) / inject_Z (p10 N) ->
+  fixn N y = Z.abs z ->
   fmt_fixQ N y = fmt_fixQ N (inject_Z z / inject_Z (p10 N)).
 Proof.
-  intros H. pose proof (p10Q_pos N) as Hp. set (p := inject_Z (p10 N)) in *.
+  intros H Hn. pose proof (p10Q_pos N) as Hp. set (p := inject_Z (p10 N)) in *.
   set (h := (1 # 2) / p) in *. set (d := inject_Z z / p) in *.
-  assert (Hh : h * p == 1 # 2) by (unfold h; field; lra).
   assert (Hh0 : 0 < h) by (unfold h; apply Qlt_shift_div_l; lra).
   assert (Hd : d * p == inject_Z z) by (unfold d; field; lra).
-  (* the decimal itself *)
   assert (Ed : fmt_fixQ N d = FTok (z <? 0)%Z (Z.abs z)).
   { assert (E' : d == val_fix N (FTok (z <? 0)%Z (Z.abs z))).
     { unfold val_fix, d, p. cbn [ft_neg ft_int]. destruct (Z.ltb_spec z 0).
@@ -59,24 +85,8 @@ Proof.
       - now rewrite Z.abs_eq by lia. }
     rewrite (fmt_fixQ_proper N _ _ E'). apply fmt_fixQ_canonical; [lia|].
     intros Hs. apply Z.ltb_lt in Hs. lia. }
-  rewrite Ed. apply Qabs_Qlt_condition in H. destruct H as [H1 H2].
-  (* the digits *)
-  assert (Habs_d : Qabs d == inject_Z (Z.abs z) / p).
-  { unfold d, Qdiv. rewrite Qabs_Qmult, (Qabs_pos (/ p)) by (apply Qlt_le_weak, Qinv_lt_0_compat; exact Hp).
-    reflexivity. }
-  assert (Hn : fixn N y = Z.abs z).
-  { unfold fixn. fold p. apply rneQ_near.
-    setoid_replace (Qabs y * p - inject_Z (Z.abs z)) with ((Qabs y - Qabs d) * p)
-      by (rewrite Habs_d; field; lra).
-    rewrite Qabs_Qmult, (Qabs_pos p) by lra. rewrite <- Hh.
-    apply Qmult_lt_r; [exact Hp|].
-    apply Qabs_Qlt_condition. split.
-    - pose proof (Qabs_triangle_reverse d y) as T. rewrite (Qabs_Qminus d y) in T.
-      assert (Qabs (y - d) < h) by (apply Qabs_Qlt_condition; split; lra). lra.
-    - pose proof (Qabs_triangle_reverse y d) as T.
-      assert (Qabs (y - d) < h) by (apply Qabs_Qlt_condition; split; lra). lra. }
+  rewrite Ed. apply Qabs_Qle_condition in H. destruct H as [H1 H2].
   unfold fmt_fixQ. rewrite Hn. f_equal.
-  (* the sign *)
   assert (H2h : h * 2 * p == 1) by (unfold h; field; lra).
   destruct (Z.ltb_spec z 0) as [Hz|Hz].
   - destruct (Z.eqb_spec (Z.abs z) 0); [lia|]. cbn [negb]. rewrite andb_true_r.
@@ -92,6 +102,47 @@ Proof.
     assert (h * 2 * p <= d * p) by (rewrite Hd, H2h; lra).
     assert (h * 2 <= d) by (apply (Qmult_le_r _ _ p Hp); exact H0).
     lra.
+Qed.
+
+(* the digits of a number at distance a from the decimal d *)
+Lemma scaled_dist N z y :
+  Qabs (Qabs y * inject_Z (p10 N) - inject_Z (Z.abs z)) <=
+  Qabs (y - inject_Z z / inject_Z (p10 N)) * inject_Z (p10 N).
+Proof.
+  pose proof (p10Q_pos N) as Hp. set (p := inject_Z (p10 N)) in *. set (d := inject_Z z / p).
+  assert (Habs_d : Qabs d == inject_Z (Z.abs z) / p).
+  { unfold d, Qdiv. rewrite Qabs_Qmult, (Qabs_pos (/ p)) by (apply Qlt_le_weak, Qinv_lt_0_compat; exact Hp).
+    reflexivity. }
+  setoid_replace (Qabs y * p - inject_Z (Z.abs z)) with ((Qabs y - Qabs d) * p)
+    by (rewrite Habs_d; field; lra).
+  rewrite Qabs_Qmult, (Qabs_pos p) by lra. apply Qmult_le_compat_r; [|lra].
+  apply Qabs_Qle_condition. split.
+  - pose proof (Qabs_triangle_reverse d y) as T. rewrite (Qabs_Qminus d y) in T. lra.
+  - pose proof (Qabs_triangle_reverse y d) as T. lra.
+Qed.
+
+(* strictly within half a unit of the last digit of a decimal d: prints as d *)
+Lemma fmt_fixQ_near N z y :
+  Qabs (y - inject_Z z / inject_Z (p10 N)) < (1 # 2) / inject_Z (p10 N) ->
+  fmt_fixQ N y = fmt_fixQ N (inject_Z z / inject_Z (p10 N)).
+Proof.
+  intros H. pose proof (p10Q_pos N) as Hp. apply fmt_fixQ_close; [lra|].
+  unfold fixn. apply rneQ_near. eapply Qle_lt_trans; [apply scaled_dist|].
+  setoid_replace (1 # 2) with ((1 # 2) / inject_Z (p10 N) * inject_Z (p10 N)) by (field; lra).
+  apply Qmult_lt_r; assumption.
+Qed.
+
+(* exactly half a unit away from a decimal whose last digit is even: prints as it too *)
+Lemma fmt_fixQ_near_even N z y :
+  Qabs (y - inject_Z z / inject_Z (p10 N)) <= (1 # 2) / inject_Z (p10 N) -> Z.even z = true ->
+  fmt_fixQ N y = fmt_fixQ N (inject_Z z / inject_Z (p10 N)).
+Proof.
+  intros H Hev. pose proof (p10Q_pos N) as Hp. apply fmt_fixQ_close; [exact H|].
+  unfold fixn. apply rneQ_near_even.
+  - eapply Qle_trans; [apply scaled_dist|].
+    setoid_replace (1 # 2) with ((1 # 2) / inject_Z (p10 N) * inject_Z (p10 N)) by (field; lra).
+    apply Qmult_le_compat_r; [exact H | lra].
+  - destruct z; cbn [Z.abs]; exact Hev.
 Qed.
 
 (* ================================================================== a parser that rounds *)
@@ -225,3 +276,116 @@ Example fl_bin20_run :
   this (rnd_fix_fl fl_bin20 2 (q 1 3)) = 173015 # 524288 /\
   fmt_fix 2 (rnd_fix_fl fl_bin20 2 (q 1 3)) = FTok false 33.
 Proof. split; [|split]; vm_compute; reflexivity. Qed.
+
+(* ================================================================== a parser that rounds TO NEAREST
+   onto a set F of representable numbers containing the data (binary64: F = the finite floats,
+   fl = the correctly rounded from_str): no bound on the magnitude of the entries is needed.
+   For x in F the parser's result fl d on the printed decimal d is at least as close to d as x is;
+   so it is within half a unit of the last digit of d, and exactly half a unit away only if x was a
+   tie -- and then the last digit of d is even, so the tie fl d is printed as d again. *)
+Section Proj.
+Variable fl : Qc -> Qc.
+Variable F : Qc -> Prop.
+Hypothesis fl_nearest : forall y f : Qc, F f -> Qabs (fl y - y) <= Qabs (f - y).
+
+Lemma fmt_rnd_fix_proj N (x : Qc) : F x -> fmt_fix N (rnd_fix_fl fl N x) = fmt_fix N x.
+Proof.
+  intros HF. pose proof (p10Q_pos N) as Hp.
+  rewrite <- (fmt_rnd_fix N x). unfold rnd_fix_fl, fmt_fix.
+  pose proof (fl_nearest (rnd_fix N x) x HF) as Hnear.
+  pose proof (rnd_fix_err N x) as Herr. rewrite (Qabs_Qminus (x : Q) (rnd_fix N x)) in Hnear.
+  (* the printed decimal as z / 10^N, z = +- its digits *)
+  set (n := fixn N x).
+  set (z := if ft_neg (fmt_fix N x) then (- n)%Z else n).
+  assert (Ez : rnd_fix N x == inject_Z z / inject_Z (p10 N)).
+  { unfold rnd_fix. rewrite Q2Qc_this. unfold val_fix. reflexivity. }
+  rewrite (fmt_fixQ_proper N (rnd_fix N x) _ Ez).
+  destruct (Qlt_le_dec (Qabs (fl (rnd_fix N x) - rnd_fix N x)) ((1 # 2) / inject_Z (p10 N)))
+    as [Hlt|Hge].
+  - apply fmt_fixQ_near. now rewrite <- Ez.
+  - apply fmt_fixQ_near_even; [rewrite <- Ez; lra|].
+    assert (Htie : Qabs (rnd_fix N x - x) == (1 # 2) / inject_Z (p10 N)) by (apply Qle_antisym; lra).
+    unfold rnd_fix in Htie. rewrite Q2Qc_this in Htie.
+    pose proof (fix_tie_even N x Htie) as Hev. fold n in Hev.
+    unfold z. destruct (ft_neg (fmt_fix N x)); [now rewrite Z.even_opp | exact Hev].
+Qed.
+
+Notation meshQ := (mesh1 AQ AQ).
+
+Lemma file_roundtrip_fix_proj_twice (N : nat) (m m0 m1 : meshQ) :
+  (forall x : Qc, In x (m1_nodes m ++ concat (m1_vars m)) -> F x) ->
+  wf1 m -> m1_nvars m0 = m1_nvars m -> m1_nvars m1 = m1_nvars m ->
+  Forall (fun r => length r = m1_nvars m0) (m1_vars m0) ->
+  Forall (fun r => length r = m1_nvars m1) (m1_vars m1) ->
+  exists lines m',
+    @output1 AQ AQ ftok (fmt_fix N) (fmt_fix N) m = Ok lines /\
+    @read1 AQ ftok (parse_fix_fl fl N) m0 (concat lines) = Ok m' /\
+    m' = map_mesh1 (A:=AQ) (rnd_fix_fl fl N) m /\
+    @output1 AQ AQ ftok (fmt_fix N) (fmt_fix N) m' = Ok lines /\
+    @read1 AQ ftok (parse_fix_fl fl N) m1 (concat lines) = Ok m'.
+Proof.
+  intros HF. apply (roundtrip_twice_on (A:=AQ) ftok (fmt_fix N) (parse_fix_fl fl N) (rnd_fix_fl fl N)).
+  - intros x _. apply parse_fmt_fix_fl.
+  - intros x Hx. apply fmt_rnd_fix_proj. now apply HF.
+Qed.
+
+(* and every entry read back is within one unit of the last digit of the entry written
+   (half a unit from the formatter, at most as much again from the parser) *)
+Lemma rnd_fix_proj_err N (x : Qc) :
+  F x -> Qabs (rnd_fix_fl fl N x - x) <= 1 / inject_Z (p10 N).
+Proof.
+  intros HF. pose proof (p10Q_pos N) as Hp.
+  eapply Qle_trans; [apply rnd_fix_fl_err|].
+  pose proof (fl_nearest (rnd_fix N x) x HF) as Hnear.
+  rewrite (Qabs_Qminus (x : Q) (rnd_fix N x)) in Hnear.
+  pose proof (rnd_fix_err N x) as Herr.
+  setoid_replace (1 / inject_Z (p10 N)) with ((1 # 2) / inject_Z (p10 N) + (1 # 2) / inject_Z (p10 N))
+    by (field; lra).
+  lra.
+Qed.
+
+End Proj.
+
+(* a witness: F = the multiples of 1/8 (three binary digits after the point), fl = nearest multiple
+   of 1/8.  12.125 is a tie at two decimals: printed 12.12, read as 12.125 again. *)
+Definition F8 (x : Qc) : Prop := exists k : Z, x == inject_Z k / 8.
+Definition fl8 (y : Qc) : Qc := Q2Qc (inject_Z (rneQ (y * 8)) / 8).
+
+Lemma fl8_nearest (y f : Qc) : F8 f -> Qabs (fl8 y - y) <= Qabs (f - y).
+Proof.
+  intros (k & Ek). unfold fl8. rewrite Q2Qc_this, Ek.
+  set (r := rneQ (y * 8)).
+  setoid_replace (inject_Z r / 8 - y) with ((inject_Z r - y * 8) / 8) by field.
+  setoid_replace (inject_Z k / 8 - y) with ((inject_Z k - y * 8) / 8) by field.
+  unfold Qdiv. rewrite !Qabs_Qmult. apply Qmult_le_compat_r; [|discriminate].
+  (* the nearest integer is at least as near as any integer *)
+  pose proof (rneQ_err (y * 8)) as [E1 E2]. fold r in E1, E2.
+  destruct (Z.eq_dec k r) as [->|Hne]; [apply Qle_refl|].
+  apply Qle_trans with (1 # 2); [apply rneQ_abs_err|].
+  apply Qabs_case; intros Hs.
+  - assert (r < k)%Z.
+    { destruct (Z_lt_le_dec r k) as [L|L]; [exact L|]. exfalso.
+      assert (k + 1 <= r)%Z by lia. rewrite Zle_Qle, inject_Z_plus in H. change (inject_Z 1) with 1 in H. lra. }
+    assert (r + 1 <= k)%Z by lia. rewrite Zle_Qle, inject_Z_plus in H0. change (inject_Z 1) with 1 in H0. lra.
+  - assert (k < r)%Z.
+    { destruct (Z_lt_le_dec k r) as [L|L]; [exact L|]. exfalso.
+      assert (r + 1 <= k)%Z by lia. rewrite Zle_Qle, inject_Z_plus in H. change (inject_Z 1) with 1 in H. lra. }
+    assert (k + 1 <= r)%Z by lia. rewrite Zle_Qle, inject_Z_plus in H0. change (inject_Z 1) with 1 in H0. lra.
+Qed.
+
+Definition ex_f8 : mesh1 AQ AQ :=
+  @mkM1 AQ Qc 1 [q 97 8; q (-3) 8; q 1000001 8] [[q 1 8]; [q 5 1]; [q (-7) 8]].
+
+Example proj_run :
+  (forall x : Qc, In x (m1_nodes ex_f8 ++ concat (m1_vars ex_f8)) -> F8 x) /\
+  fmt_fix 2 (q 97 8) = FTok false 1212 /\
+  this (rnd_fix_fl fl8 2 (q 97 8)) = 97 # 8 /\
+  this (rnd_fix 2 (q 97 8)) = 303 # 25.
+Proof.
+  split; [|split; [|split]]; try (vm_compute; reflexivity).
+  intros x Hx. cbn in Hx.
+  repeat (destruct Hx as [<-|Hx];
+          [first [ exists 97%Z; reflexivity | exists (-3)%Z; reflexivity | exists 1000001%Z; reflexivity
+                 | exists 1%Z; reflexivity | exists 40%Z; reflexivity | exists (-7)%Z; reflexivity ]|]).
+  destruct Hx.
+Qed.
